@@ -1,6 +1,7 @@
 import Cpppo.Proofs.ConcurrentArr
 import Cpppo.Proofs.ConcurrentLgx
 import Cpppo.Proofs.Forwards
+import Cpppo.Proofs.ForwardsThreads
 
 /-!
 # C09 — Concurrent sessions are isolated and each request is atomic
@@ -491,6 +492,43 @@ theorem open_connection_survives (p : Peer) (cid serial : Nat) (tgt : Target) (t
     apply ih (fun o ho => hoth o (List.mem_cons_of_mem _ ho))
     rw [other_peer_untouched t' op ⟨p, cid⟩ (hoth op List.mem_cons_self)]
     exact h0
+
+/-- **The two models together: session threads sharing the Forward Open table.**  Take the thread machine of the first
+part of this file (one thread per session, shared parsers under locks, ONE atomic access per request, any schedule)
+with the Forward Open table as its shared memory and `run` (a request = a list of table operations) as the atomic
+access.  If every session `s` is a distinct peer `peerOf s` and sends only operations of its own peer, then in every
+schedule that answers everybody, every session has been sent exactly the replies of its own requests executed alone,
+one after the other, on its own part of the initial table - whatever the other sessions did and however the steps
+interleaved. -/
+theorem threads_connected_isolation (peerOf : Concurrent.Sid → Peer) (hinj : ∀ a b, peerOf a = peerOf b → a = b)
+    (t0 : Table) (prog : Concurrent.Sid → List (Concurrent.Frame Op)) (sched : List Concurrent.Sid)
+    (hown : ∀ s, ∀ w ∈ Concurrent.requests (prog s), ∀ op ∈ w, op.peer = peerOf s)
+    (hfin : ∀ s, ((Concurrent.runSched run (Concurrent.init t0 prog) sched).thr s).finished = true) (s : Concurrent.Sid) :
+    ((Concurrent.runSched run (Concurrent.init t0 prog) sched).thr s).sent.flatten
+      = seqReplies (restrict (peerOf s) t0) (Concurrent.requests (prog s)) := by
+  obtain ⟨order, hproj, _, hsent, _, _⟩ := Concurrent.linearizable_complete run t0 prog sched hfin
+  rw [hsent s, proj_runSeq_restrict peerOf hinj s order t0, hproj s]
+  intro e he op hop
+  have := mem_proj_of_mem e order he
+  rw [hproj e.1] at this
+  exact hown e.1 e.2 this op hop
+
+/-- two session threads from one host (ports 1001 and 1000) -/
+def threadsProg : Concurrent.Sid → List (Concurrent.Frame Op)
+  | 0 => [[(0, [.fopen ⟨1, 1001⟩ 5 7 .pccc, .send ⟨1, 1001⟩ 5 .df1])], [(0, [.send ⟨1, 1001⟩ 5 .df1])]]
+  | 1 => [[(0, [.fclose ⟨1, 1000⟩ 7])], [(0, [.fin ⟨1, 1000⟩])]]
+  | _ => []
+
+def threadsSched : List Concurrent.Sid := (List.range 80).map (· % 2)
+
+/-- the hypotheses of `threads_connected_isolation` are satisfiable on a genuinely interleaved run: both sessions are
+answered completely, session 1's Forward Close (same serial) and end fall between session 0's open and its last
+request, and session 0 is served through its connection both times -/
+example :
+    let st := Concurrent.runSched run (Concurrent.init [] threadsProg) threadsSched
+    (∀ s < 3, (st.thr s).finished = true) ∧ st.hist.map (·.1) = [0, 1, 0, 1] ∧
+    (st.thr 0).sent = [[[.opened, .viaPccc]], [[.viaPccc]]] ∧ (st.thr 1).sent = [[[.closed]], [[.ended]]] := by
+  decide +kernel
 
 /-- the table is a dict: keys stay unique over every operation sequence -/
 theorem table_keys_unique (ops : List Op) : KeysNodup (run [] ops).1 :=
